@@ -46,7 +46,10 @@ CLAIM = dict(
     "the regularisation parameter L scaled along - with fixed L its unconverged iterates are not homogeneous: known finding); constant "
     "weight; first-moment bound (also proved, see above); 1-D and thin n x 1 (x 1) grids against the closed form for every method x mobility x L1 mode; "
     "front-end = back-end; EMD single-cell moves, symmetry, scaling, first-moment bound.",
-    note="Not covered: convergence of Newton/Bregman to the minimum (C04/C08 own the solver internals; flagged-converged runs are only "
+    note="Round 4 batch 3: the cyclic-grid and thin-grid runs cycle through documented solver option variants (bregman_update at various iterations, "
+    "bregman_homogeneous, Anderson acceleration, full / flux_reduced formulation; iterative linear back-ends are C08's and excluded); the "
+    "RAVIART_THOMAS rule is compared with an independent Gauss-Legendre tensor rule and the closed forms use independent rules for all three "
+    "modes; EMD is also run on space-time images (per-slice results and per-slice signatures). Not covered: convergence of Newton/Bregman to the minimum (C04/C08 own the solver internals; flagged-converged runs are only "
     "required to lie within 25 % above the scipy minimum of their own functional - measured 4 % Newton, 11 % Bregman); mass-only scaling is "
     "enforced for Newton (1e-5) and on thin grids, for Bregman it is a BOUNDED known finding (unconverged <= 100 %, flagged-converged <= 15 %, "
     "measured 66 % / 4.7 %); min_symm/min_smul/min_weight_smul are conditional on a given minimum of a rational-valued seminorm cost; "
@@ -92,6 +95,29 @@ def options(l1, mob, num_iter, L=None, extra=None):
     if extra:
         o.update(extra)
     return o
+
+
+# the iterative linear back-ends (amg, cg) are deliberately NOT among the variants: with them mass conservation holds only to the
+# linear solver's own tolerance / iteration budget (C08's subject); every variant below solves its linear systems directly
+VARIANTS = {"newton": ["plain", "aa2", "aa3r", "full", "fluxred"],
+            "bregman": ["plain", "upd3", "updall", "upd0", "homog", "aa2", "aa3r", "full", "fluxred"]}
+
+
+def variant_slack(tag):
+    """Anderson acceleration replaces the iterate by a least-squares combination of earlier iterates: mass conservation and the
+    closed forms then hold to the conditioning of that small problem (observed 3e-9), not to rounding"""
+    return 1e3 if tag.startswith("aa") else 1.0
+
+
+def variant_options(tag):
+    """documented solver options that change HOW the iteration runs, never what a result means: re-computed Bregman weights
+    (bregman_update at various iterations, homogeneous), Anderson acceleration, linear-system formulation, linear solver"""
+    return {
+        "plain": {}, "upd3": {"bregman_update": lambda it: it % 3 == 0}, "updall": {"bregman_update": lambda it: True},
+        "upd0": {"bregman_update": lambda it: it == 0}, "homog": {"bregman_update": lambda it: it % 4 == 0, "bregman_homogeneous": True},
+        "aa2": {"aa_depth": 2}, "aa3r": {"aa_depth": 3, "aa_restart": 4}, "full": {"formulation": "full"},
+        "fluxred": {"formulation": "flux_reduced"}, "amg": {"linear_solver": "amg"}, "cg": {"linear_solver": "cg"},
+    }[tag]
 
 
 def image(d, arr, dims):
@@ -151,8 +177,13 @@ def rt0(U_axes, shape, pt):
 
 
 def cost_indep(d, U_axes, shape, hs, l1, weight=None):
-    own = own_rule(l1, len(shape)) if "own_rule" in globals() else None
-    pts, w = own if own is not None else quadrature(d, l1, len(shape))
+    own = own_rule(l1, len(shape))
+    if own is None:
+        # RAVIART_THOMAS: independent Gauss-Legendre rule with as many nodes per direction as the implementation's rule
+        ip, iw = quadrature(d, l1, len(shape))
+        n = max(1, int(round(len(iw) ** (1.0 / len(shape)))))
+        own = gauss_legendre_cell(n, len(shape))
+    pts, w = own
     dens = np.zeros(tuple(shape))
     for p, wq in zip(pts, w):
         cf = rt0(U_axes, shape, p)
@@ -442,6 +473,15 @@ def own_rule(l1, dim):
     return None
 
 
+def gauss_legendre_cell(n, dim):
+    """independent n-point Gauss-Legendre tensor rule on the unit cell (numpy's leggauss)"""
+    x, w = np.polynomial.legendre.leggauss(n)
+    x, w = (x + 1) / 2, w / 2
+    pts = np.array(list(itertools.product(x, repeat=dim)), dtype=float)
+    wts = np.array([float(np.prod(c)) for c in itertools.product(w, repeat=dim)])
+    return pts, wts
+
+
 def corner_rule_tie(ctx, d):
     """the model's corner rule (cornerPt / cornerW) is the implementation's reference_cell_corners as a set of (node, weight)"""
     lines = [f"cornerrule {dim}" for dim in (1, 2, 3)]
@@ -488,6 +528,22 @@ def rule_facts_oracle(ctx, d):
             if bad:
                 ctx.fail(f"C05:quadrature-rule:{l1}:dim={dim}", f"the quadrature rule of l1_mode {l1} in {dim}-D violates the hypotheses of the cost bounds: {bad}",
                          {**rp, "weights": np.asarray(w).tolist(), "points": np.asarray(pts).tolist()})
+                continue
+            if l1 == "RAVIART_THOMAS":
+                # "exact integration of RT0": an n-point Gauss-Legendre tensor rule (n read off the number of nodes) - every node
+                # and weight against numpy's independent table, as a set
+                n = int(round(len(w) ** (1.0 / dim)))
+                ok = n ** dim == len(w)
+                if ok:
+                    gp, gw = gauss_legendre_cell(n, dim)
+                    a = np.array(sorted(map(tuple, np.column_stack([pts, w]).tolist())))
+                    b = np.array(sorted(map(tuple, np.column_stack([gp, gw]).tolist())))
+                    ok = a.shape == b.shape and bool(np.max(np.abs(np.sort(a.view(), axis=0) - np.sort(b.view(), axis=0))) < 1e-13) and \
+                        all(np.min(np.max(np.abs(b - row), axis=1)) < 1e-13 for row in a)
+                if not ok:
+                    ctx.fail(f"C05:quadrature-rule:{l1}:dim={dim}", f"l1_mode {l1} in {dim}-D does not use a Gauss-Legendre tensor rule on the unit cell "
+                             f"({len(w)} nodes): the cost of a flux that changes sign inside a cell is integrated with another rule",
+                             {**rp, "weights": np.asarray(w).tolist(), "points": np.asarray(pts).tolist()})
                 continue
             own = own_rule(l1, dim)
             if own is not None:
@@ -549,6 +605,7 @@ def emd_oracle(ctx, d):
     # signature construction of EMD.__call__ (normalise by the sum, rows [weight, col*del_x, row*del_y] in row-major order,
     # del_y, del_x = voxel_size) against the model `sigOf`, exactly, on dyadic images whose sum is a power of two
     slines, simpl = [], []
+    slines2, simpl2, missing2 = [], [], []
     missing = 0
     for _ in range(ctx.pick(6, 30)):
         rows, cols = rng.randint(1, 4), rng.randint(1, 4)
@@ -570,6 +627,58 @@ def emd_oracle(ctx, d):
     if missing:
         ctx.notes.append(f"EMD._img_to_sig/_normalize/_preprocess not available in {missing} cases: signature construction NOT tied")
         ctx.log("NOTE EMD signature helpers missing: signature construction not tied")
+    # space-time images (series=True): one distance per time slice, each equal to the distance of that slice on its own; the
+    # signature of slice i must be built from slice i (also compared with the model, per slice)
+    def series_image(stack, dims):
+        return d.Image(np.stack(stack, axis=-1), space_dim=2, dimensions=list(dims), scalar=True, series=True, time=list(range(len(stack))))
+
+    for _ in range(ctx.pick(4, 20)):
+        rows, cols, T = rng.randint(2, 4), rng.randint(2, 4), rng.randint(2, 4)
+        dy, dx = rng.choice((0.5, 1.0, 0.25)), rng.choice((0.5, 2.0, 0.75))
+        dims = [rows * dy, cols * dx]
+        pairs = []
+        for t in range(T):
+            if t == 0:  # a single-cell move in the first slice
+                a, b = np.zeros((rows, cols)), np.zeros((rows, cols))
+                a[rng.randrange(rows), rng.randrange(cols)] = 2.0
+                b[rng.randrange(rows), rng.randrange(cols)] = 2.0
+            else:
+                a = np.array([rng.randint(0, 8) / 8 for _ in range(rows * cols)]).reshape(rows, cols)
+                b = np.array([rng.randint(0, 8) / 8 for _ in range(rows * cols)]).reshape(rows, cols)
+                a[0, 0] += 8.0 - a.sum()
+                b[-1, -1] += 8.0 - b.sum()
+            pairs.append((a, b))
+        ctx.count(("emd-series", rows, cols, T, dy, dx, pairs[1][0].tobytes()))
+        rp = {"rows": rows, "cols": cols, "T": T, "hs": [dy, dx], "slices_1": [p[0].tolist() for p in pairs], "slices_2": [p[1].tolist() for p in pairs]}
+        s1, s2 = call(series_image, [p[0] for p in pairs], dims), call(series_image, [p[1] for p in pairs], dims)
+        if isinstance(s1, Raised) or isinstance(s2, Raised):
+            ctx.fail("C05:EMD:series:Image:raises", f"series image raises {s1 if isinstance(s1, Raised) else s2}", rp)
+            continue
+        got = call(e, s1, s2)
+        single = [call(e, image(d, a, dims), image(d, b, dims)) for a, b in pairs]
+        if isinstance(got, Raised) or any(isinstance(v, Raised) for v in single):
+            ctx.fail("C05:EMD:series:raises", f"EMD on a series of {T} slices: {got if isinstance(got, Raised) else single}", rp)
+        else:
+            gv = np.atleast_1d(np.asarray(got, dtype=float))
+            sv = np.array([float(v) for v in single])
+            if gv.shape != sv.shape or np.any(np.abs(gv - sv) > 1e-4 * np.maximum(sv, 1e-12) + 1e-12):
+                ctx.fail("C05:EMD:series", f"EMD of a space-time image returns {gv.tolist()} but its time slices on their own give {sv.tolist()}", {**rp, "observed": gv.tolist(), "required": sv.tolist()})
+        try:
+            sig = e._img_to_sig(e._normalize(e._preprocess(s1)), dx=tuple(s1.voxel_size), time_num=T)
+            for t in range(T):
+                a = pairs[t][0]
+                slines2.append(f"sig {rows} {cols} {fmt(dy)} {fmt(dx)} {flist(a.ravel())}")
+                simpl2.append(" | ".join(" ".join(fmt(float(x)) for x in row) for row in np.asarray(sig[t], dtype=float)))
+        except AttributeError:
+            missing2.append(1)
+        except Exception as ex:  # noqa: BLE001
+            slines2.append(f"sig {rows} {cols} {fmt(dy)} {fmt(dx)} {flist(pairs[0][0].ravel())}")
+            simpl2.append(repr(Raised(ex)))
+    if slines2:
+        ctx.correspond("emd-signature-construction-series", slines2, simpl2)
+    if missing2:
+        ctx.notes.append("EMD signature helpers missing: series signature construction NOT tied")
+        ctx.log("NOTE EMD signature helpers missing: series signature construction not tied")
     # general pairs: symmetry, scaling, first-moment bound
     for _ in range(ctx.pick(8, 40)):
         rows, cols = rng.randint(2, 5), rng.randint(2, 5)
@@ -620,9 +729,9 @@ def thin_case(args):
     """worker: one real solve on a thin grid (exceptions as data)."""
     import darsia as d
 
-    shape, hs, m1, m2, method, mob, l1 = args
+    shape, hs, m1, m2, method, mob, l1, var = args
     dims = [s * h for s, h in zip(shape, hs)]
-    r = solve(d, np.array(m1), np.array(m2), dims, method, options(l1, mob, 100, L=1.0))
+    r = solve(d, np.array(m1), np.array(m2), dims, method, options(l1, mob, 100, L=1.0, extra=variant_options(var)))
     if isinstance(r, Raised):
         return ("raised", repr(r), str(r.exc)[:120])
     try:
@@ -662,15 +771,15 @@ def thin_correspondence(ctx, d):
         pts, w = own_rule(l1, dim)  # independent of the implementation's quadrature module
         req = f"thin {dim} {' '.join(map(str, shape))} {flist(hs)} {a} {flist(w)} {flist(pts.ravel())} {flist(f)}"
         cases.append(dict(shape=list(shape), hs=hs, m1=m1.reshape(shape, order="F").tolist(), m2=m2.reshape(shape, order="F").tolist(),
-                          method=method, mob=mob, l1=l1, a=a, req=req))
+                          method=method, mob=mob, l1=l1, a=a, req=req, var=VARIANTS[method][i % len(VARIANTS[method])]))
     with mp.get_context("fork").Pool(min(16, max(2, mp.cpu_count()))) as pool:
-        res = pool.map(thin_case, [(c["shape"], c["hs"], c["m1"], c["m2"], c["method"], c["mob"], c["l1"]) for c in cases], chunksize=1)
+        res = pool.map(thin_case, [(c["shape"], c["hs"], c["m1"], c["m2"], c["method"], c["mob"], c["l1"], c["var"]) for c in cases], chunksize=1)
     model = ctx.model([c["req"] for c in cases])
     bad = 0
     worst = 0.0
     for c, r, m in zip(cases, res, model):
         ctx.count(("thin", c["req"], c["method"], c["mob"]))
-        rp = {k: c[k] for k in ("shape", "hs", "m1", "m2", "method", "mob", "l1")} | {"num_iter": 100}
+        rp = {k: c[k] for k in ("shape", "hs", "m1", "m2", "method", "mob", "l1")} | {"num_iter": 100, "variant": c["var"]}
         try:
             flags, fl, cm = [x.strip() for x in m.split("|")]
             want = float(frac(cm))
@@ -686,11 +795,12 @@ def thin_correspondence(ctx, d):
             continue
         dist, U_axes = r[1], r[2]
         got_u = np.array(U_axes[c["a"]])
-        if len(uf) != len(got_u) or (len(uf) and np.max(np.abs(np.array(uf) - got_u)) > 1e-9 * max(1.0, float(np.max(np.abs(uf))))):
+        sl = variant_slack(c["var"])
+        if len(uf) != len(got_u) or (len(uf) and np.max(np.abs(np.array(uf) - got_u)) > sl * 1e-9 * max(1.0, float(np.max(np.abs(uf))))):
             ctx.fail(f"C05:thin-grid:flux:{c['method']}", f"grid {tuple(c['shape'])}: returned flux differs from the unique mass-conserving flux (prefix sums)",
                      {**rp, "model_flux": uf, "impl_flux": got_u.tolist()})
         worst = max(worst, abs(dist - want) / max(want, 1e-300))
-        if abs(dist - want) > 1e-9 * max(want, 1e-12):
+        if abs(dist - want) > sl * 1e-9 * max(want, 1e-12):
             ctx.fail(f"C05:thin-grid:mobility={c['mob']}:{c['method']}", f"grid {tuple(c['shape'])} {c['l1']}: distance {dist!r} but the unique mass-conserving flux costs {want!r} (exact model value)",
                      {**rp, "distance": dist, "closed_form": want})
     ctx.cov.setdefault("correspondence", {})["thin-unique-flux-and-cost(model exact vs solver, rel 1e-9)"] = {"cases": len(cases), "disagreements": bad, "max_rel_err": worst}
@@ -948,16 +1058,17 @@ def bf_case(cfg):
             out["ub"][l1] = primal_minimum(d, shape, hs, f, l1, seeds=cfg.get("seeds", 4))[0]
         except Exception as e:  # noqa: BLE001
             out["ub"][l1] = None
-    for method, mob, l1, ni in cfg["runs"]:
-        r = solve(d, m1, m2, dims, method, options(l1, mob, ni, L=1.0))
+    for method, mob, l1, ni, var in cfg["runs"]:
+        r = solve(d, m1, m2, dims, method, options(l1, mob, ni, L=1.0, extra=variant_options(var)))
         out["n"] += 1
-        rp = {"shape": list(shape), "hs": hs, "m1": m1.tolist(), "m2": m2.tolist(), "method": method, "mob": mob, "l1": l1, "num_iter": ni}
+        rp = {"shape": list(shape), "hs": hs, "m1": m1.tolist(), "m2": m2.tolist(), "method": method, "mob": mob, "l1": l1, "num_iter": ni, "variant": var}
         if isinstance(r, Raised):
-            out["fails"].append((f"C05:general:raises:mobility={mob}:{method}", f"grid {shape}: {method} raises {r}: {str(r.exc)[:100]}", rp))
+            out["fails"].append((f"C05:general:raises:mobility={mob}:{method}:{var}", f"grid {shape}: {method} (options variant {var}) raises {r}: {str(r.exc)[:100]}", rp))
             continue
         dist = float(r[0])
         conv = bool(r[1].get("converged"))
         out["runs"].append((method, mob, l1, ni, dist, conv))
+        out.setdefault("variants", set()).add(f"{method}:{var}")
         # the reported distance is the cost of a mass-conserving flux also for these (mostly unconverged) runs
         try:
             U_axes = recover_flux(r[1]["flux"], shape)
@@ -966,9 +1077,9 @@ def bf_case(cfg):
             ci = cost_indep(d, U_axes, shape, hs, l1)
             out["tie"] = max(out.get("tie", 0.0), abs(ci - dist) / max(dist, 1e-300))
             out["feas"] = max(out.get("feas", 0.0), res)
-            if res > TOL_FEAS:
+            if res > TOL_FEAS * variant_slack(var):
                 out["fails"].append((f"C05:flux-not-mass-conserving:{method}", f"{method}:{mob}:{l1} grid {shape} ({ni} iterations): returned flux violates div u = m2 - m1 by {res:.3e}", {**rp, "residual": res}))
-            elif abs(ci - dist) > TOL_TIE * max(dist, lbf, 1e-300):
+            elif abs(ci - dist) > TOL_TIE * variant_slack(var) * max(dist, lbf, 1e-300):
                 out["fails"].append((f"C05:distance-not-cost-of-flux:{method}", f"{method}:{mob}:{l1} grid {shape} ({ni} iterations): distance {dist!r} but cost of the returned flux is {ci!r}", {**rp, "distance": dist, "cost": ci}))
         except Exception as e:  # noqa: BLE001
             out["fails"].append((f"C05:info-flux:{method}", f"cannot use info['flux']: {type(e).__name__}: {e}", rp))
@@ -1027,9 +1138,11 @@ def bruteforce(ctx):
         m1, m2 = gen_pair(rng, shape, rng.choice(("positive", "compact")))
         runs = []
         for method in ("newton", "bregman"):
-            for _ in range(2):
-                runs.append((method, rng.choice(MOB), rng.choice(L1), rng.choice((3, 10))))
-                runs.append((method, rng.choice(MOB), rng.choice(L1), 200))
+            vs = VARIANTS[method]
+            for j in range(3):
+                # option variants cycled so that every one occurs in every run of the check
+                runs.append((method, rng.choice(MOB), rng.choice(L1), rng.choice((3, 10, 25)), vs[(3 * i + j) % len(vs)]))
+            runs.append((method, rng.choice(MOB), rng.choice(L1), 200, "plain"))
         cfgs.append(dict(shape=list(shape), hs=hs, m1=m1.tolist(), m2=m2.tolist(), runs=runs, seeds=ctx.pick(1, 4), bregman_converged=(i < ctx.pick(2, 6) and int(np.prod(shape)) <= 6)))
     with mp.get_context("fork").Pool(min(16, max(2, mp.cpu_count()))) as pool:
         res = pool.map(bf_case_safe, cfgs, chunksize=1)
@@ -1059,6 +1172,7 @@ def bruteforce(ctx):
     k = 0
     bad = 0
     gaps, slack = {}, []
+    seen_variants = set()
     for cfg, r in zip(cfgs, res):
         ctx.count(("bruteforce", json.dumps(cfg, sort_keys=True)), n=max(1, r["n"]))
         for sig, what, rp in r["fails"]:
@@ -1076,6 +1190,7 @@ def bruteforce(ctx):
                 gaps[l1] = max(gaps.get(l1, 0.0), (ub - lbf) / ub)
                 if ub < lbf * (1 - 1e-9):
                     ctx.mark("TIE-BROKEN", {"bruteforce": "upper bound below certified lower bound (harness inconsistency)", "shape": cfg["shape"], "l1": l1, "ub": ub, "lb": lbf})
+        seen_variants |= r.get("variants", set())
         for (method, mob, l1, ni, dist, conv) in r["runs"]:
             if lbf > 0:
                 slack.append((dist - lbf) / lbf)
@@ -1084,6 +1199,7 @@ def bruteforce(ctx):
     for r in res:
         for mth, v in r.get("over_ub", {}).items():
             over[mth] = max(over.get(mth, -1.0), v)
+    ctx.cov["solver_option_variants_run_on_cyclic_grids"] = sorted(seen_variants)
     ctx.cov["bruteforce"] = {"grids": len(cfgs), "certified": len(reqs), "max_tie_err": max([r.get("tie", 0.0) for r in res] or [0.0]),
                              "max_feas_residual": max([r.get("feas", 0.0) for r in res] or [0.0]),
                              "max_converged_distance_over_scipy_minimum_by_method": over,
@@ -1138,7 +1254,10 @@ def run(ctx):
             from ..lib.core import LEAN
 
             l1 = c15.parse_committed_l1((LEAN / "DarsiaGen" / "QuadratureTables.lean").read_text())
-        ctx.write_gen("QuadratureTables", c15.emit(ex, c15.tabulate_corners(d), l1))
+        # emit EXACTLY what C15's own run emits (same helper functions, same arguments), so that both checks
+        # regenerate an identical file from an identical tree
+        api = c15.tabulate_api(d) if hasattr(c15, "tabulate_api") else None
+        ctx.write_gen("QuadratureTables", c15.emit(ex, c15.tabulate_corners(d), l1, api) if api is not None else c15.emit(ex, c15.tabulate_corners(d), l1))
         ctx.cov["quadrature_tables"] = "re-extracted from the current source (C15 generator)"
     except Exception as e:  # noqa: BLE001
         # NOT silent: the theorems are then about the committed table, which may no longer be what the code computes; the
